@@ -342,3 +342,46 @@ def A_no_process_dependence(coqname, allow_np_random=False):
         _unsupported(f'module uses {D(node)}')
     return f'Definition {coqname} : bool := true.'
   return emit
+
+
+
+def A_forwarding(outer_qual, callee, coqname, callee_params=None, callee_qual=None):
+  """Fail-closed recogniser of argument plumbing: inside `outer_qual` every call of `callee` binds each of the
+  outer function's parameters it passes on to the LIKE-NAMED parameter of the callee (by keyword, or by position
+  against the callee's signature: `callee_qual` in the same module, or the explicit `callee_params`).  Expressions
+  that are not bare outer-parameter names (examples['x'], literals, 'train') are not constrained."""
+  def emit(tree):
+    T = _T()
+    fd = T.find_def(tree, outer_qual)
+    outer = {a.arg for a in fd.args.args + fd.args.kwonlyargs} - {'self'}
+    params = callee_params
+    if params is None:
+      cd = T.find_def(tree, callee_qual or callee)
+      params = [a.arg for a in cd.args.args if a.arg != 'self']
+    calls = [n for n in ast.walk(fd) if isinstance(n, ast.Call) and (D(n.func) or '').split('.')[-1] == callee.split('.')[-1]
+             and (D(n.func) or '').endswith(callee)]
+    if callee.startswith('super().'):
+      calls = [n for n in ast.walk(fd) if isinstance(n, ast.Call) and isinstance(n.func, ast.Attribute) and n.func.attr == callee.split('.')[-1]
+               and isinstance(n.func.value, ast.Call) and D(n.func.value.func) == 'super']
+    if not calls:
+      _unsupported(f'{outer_qual}: no call of {callee}')
+    for c in calls:
+      if any(isinstance(a, ast.Starred) for a in c.args) or any(k.arg is None for k in c.keywords):
+        _unsupported(f'{outer_qual}: *args / **kwargs in the call of {callee}')
+      if len(c.args) > len(params):
+        _unsupported(f'{outer_qual}: too many positional arguments for {callee}')
+      bound = list(zip(params, c.args)) + [(k.arg, k.value) for k in c.keywords]
+      seen = set()
+      for pname, e in bound:
+        if pname in seen or pname not in params:
+          _unsupported(f'{outer_qual}: {callee} parameter {pname} bound twice / unknown')
+        seen.add(pname)
+        if isinstance(e, ast.Name) and e.id in outer and e.id != pname:
+          _unsupported(f'{outer_qual}: passes its parameter `{e.id}` as `{pname}` of {callee}')
+        if pname in outer and not (isinstance(e, ast.Name) and e.id == pname):
+          _unsupported(f'{outer_qual}: its parameter `{pname}` is not what {callee} receives as `{pname}`')
+      for pname in params:
+        if pname in outer and pname not in seen:
+          _unsupported(f'{outer_qual}: its parameter `{pname}` is not passed on to {callee}')
+    return f'Definition {coqname} : bool := true.'
+  return emit
